@@ -206,7 +206,13 @@ def check(an: Analysis) -> None:
             ob3.fail(oc, None, "the timer handle is never cancelled once the task completed")
         else:
             ob3.inst(oc, tc[0].ast)
-            w = gc.must_pass(lambda n: n in tc, raising=strict)
+            def already_cancelled(a, b, lab):
+                # `if not handle.cancelled(): handle.cancel()` - a handle that is cancelled already is not armed
+                if a.kind == "test" and isinstance(a.ast, ast.Call) and isinstance(a.ast.func, ast.Attribute) and a.ast.func.attr == "cancelled" and "timer" in role_of(oc, a.ast.func.value):
+                    return lab == "T"
+                return False
+
+            w = gc.must_pass(lambda n: n in tc, raising=strict, skip_edge=already_cancelled)
             if w is not None:
                 ob3.fail(oc, tc[0].ast, "a path through the completion callback leaves the timer armed", CFG.show_path(w))
 
